@@ -759,7 +759,7 @@ pub fn run_tree<F: AdFrame>(flavor: Flavor, src: &mut Source, obs: &mut Observer
                         if r.chance(1, 10) {
                             return Some(Op::new(R_STATIC, r.range(0, 14 * (crate::adframe::N_SWEEP as i64 + 1) - 1), r.range(0, 5), r.range(0, 5)));
                         }
-                        if g.flavor == Flavor::Eof && r.chance(1, 12) {
+                        if r.chance(1, if g.flavor == Flavor::Eof { 12 } else { 40 }) {
                             return Some(Op::new(R_LIFT, r.range(0, 24), r.range(0, 3), r.range(0, 6)));
                         }
                         Some(gen_build(r, &mut g))
